@@ -86,9 +86,9 @@ chk("C03", "table agreement (lexer operator constants / token->kind match / enum
     "Trusted: syn parse. The shape is a sufficient condition; an equivalent but differently structured parser would be reported (fail closed).",
     "DESIGN.md section 4 C03")
 
-chk("C04", "MIR assert inventory (no overflow/div assert on signed ints reachable from eval, interval table re-checked) + syntax op-table per operator arm, zero/negative guards, sibling agreement of += with +, operand order; ERROR-RESTORE (error exits of the arithmetic helpers hand back the popped operands in push order; shared with C07's symbolic sequence analysis)",
+chk("C04", "MIR assert inventory (no overflow/div assert on signed ints reachable from eval, interval table re-checked) + syntax op-table per operator arm, zero/negative guards, sibling agreement of += with + (operation and store), UPDATE-ORDER, operand order; ERROR-RESTORE (error exits of the arithmetic helpers hand back the popped operands in push order; shared with C07's symbolic sequence analysis)",
     "Necessary structural clauses for every operator arm and every signed arithmetic site reachable from the evaluator: documented Rust operation on (lhs, rhs), guards present, unrepresentable results raise, compound assignment agrees with the binary operator. Numerical results are taken from Rust's definitions, not computed.",
-    "Trusted: rustc MIR (overflow checks on), syn parse, Rust's wrapping_*/checked_* semantics.",
+    "Trusted: rustc MIR (overflow checks on), syn parse, Rust's wrapping_*/checked_* semantics. One known finding: `x += e` reads x after evaluating e (differs from `x = x + e` when e assigns x).",
     "DESIGN.md section 4 C04")
 
 chk("C06", "abstract simulation of MIR under fixed enum discriminants: owes-table of eval_expr (blocks popped per (variant, state)) vs blocks popped by eval_break/eval_continue per discarded or re-scheduled entry (conservation), stop-only-at-running-loop; PUSH-PAIRING (per-step conservation: blocks pushed - popped = owed by what the step schedules - owed by its entry, with helper summaries); RETURN-CLEARS (pending entries cleared and inner binding blocks dropped); CONSUME-NEXT-BLOCK (eval_block moves bindings_next_block out); BLOCK-SCOPE-ORDER",
